@@ -144,16 +144,20 @@ def _plain_labels(ptype, tlen, raw, n):
     return out if at == len(raw) else None
 
 
-def chunk_model_check(fm, data, leaves, rgs):
+def chunk_model_check(fm, data, leaves, rgs, fn=None):
     """tie of Impl/WChunk.v + Impl/RSelf.v (coq/props/C01_chunk.v) to the code, per column chunk of a written file:
        (a) the writer model's chunk bytes for the column the chunk holds (same page split, labels and codes of a
            categorical) = the bytes write_column wrote (information: padding / run choices are the writer's freedom);
        (b) the reader model WITH the selfmade shortcuts (skip_nulls from the statistics, raw 8/16/32-bit codes) applied
            to the real chunk bytes returns the cells the specification decoder (and the real reader) returns.
+       (c) a categorical chunk read AS A CATEGORICAL by the model (Impl/RCat.rd_chunk_cat, C01_chunk_categorical_roundtrip_partial)
+           gives the codes array the REAL reader gives (ParquetFile(fn).to_pandas(): use_cat path) and the codes the
+           specification's cells have in the dictionary.
        -> dict(chunks, bytes_equal, raw_equal, differ=[...], reader_ok, reader_bad=[...])"""
     from harness import pqfile, fmtlib
     fmd, _ = pqfile.read_footer(data)
-    out = {"chunks": 0, "bytes_equal": 0, "raw_equal": 0, "differ": [], "reader": 0, "reader_bad": [], "cat_chunks": 0}
+    out = {"chunks": 0, "bytes_equal": 0, "raw_equal": 0, "differ": [], "reader": 0, "reader_bad": [], "cat_chunks": 0, "cat_read": 0}
+    model_codes = {}
     for rg, rgcells in zip(fmd.row_groups, rgs):
         for col, l, cells in zip(rg.columns, leaves, rgcells):
             m = col.meta_data
@@ -211,6 +215,17 @@ def chunk_model_check(fm, data, leaves, rgs):
                 at += p["num_values"]
                 mp.append([[] if c is None else (idx[c] if labels is not None else c) for c in pc])
             k = 0 if labels is None else (1 if len(labels) < 128 else 2 if len(labels) < 32768 else 4)
+            if labels is not None:
+                rc = fm.pq.call("fmt_rd_chunk_cat", 1, skip, k, l["type"], l["tlen"], 1 if l["maxdef"] else 0, codec, m.num_values,
+                                data[start:end], dtbl)
+                out["cat_read"] += 1
+                want = [-1 if c is None else idx[c] for c in cells]
+                if rc[0] != b"ok" or list(rc[2]) != want:
+                    out["reader_bad"].append("column %s chunk at %d: categorical reader model %s, codes of the specification's cells %s" % (
+                        l["name"], start, (str(list(rc[2]))[:80] if rc[0] == b"ok" else rc), str(want)[:80]))
+                    model_codes[l["name"]] = None
+                elif model_codes.get(l["name"], []) is not None:
+                    model_codes.setdefault(l["name"], []).extend(rc[2])
             args = [1 if v2 else 0, 1 if l["maxdef"] else 0, l["type"], l["tlen"], codec, k, [labels] if labels is not None else [], mp]
             r1 = fm.pq.call("fmt_w_chunk", *(args + [[]]))
             if r1[0] != b"ok":
@@ -231,6 +246,23 @@ def chunk_model_check(fm, data, leaves, rgs):
                     l["name"], start, "categorical" if labels is not None else "plain", first,
                     raws[first].hex()[:60] if first is not None else len(raws),
                     real_raws[first].hex()[:60] if first is not None else len(real_raws)))
+    model_codes = {k: v for k, v in model_codes.items() if v is not None}
+    if fn is not None and model_codes:
+        import fastparquet
+        import pandas as pd
+        import numpy as np
+        try:
+            df = fastparquet.ParquetFile(fn).to_pandas(columns=sorted(model_codes), index=False)
+        except Exception as e:     # noqa
+            df = None
+            out["reader_bad"].append("real categorical read failed: %s: %s" % (type(e).__name__, str(e)[:200]))
+        for name, mc in (model_codes.items() if df is not None else []):
+            if name in df.columns and isinstance(df[name].dtype, pd.CategoricalDtype):
+                real = [int(x) for x in np.asarray(df[name].cat.codes)]
+                out["cat_real"] = out.get("cat_real", 0) + 1
+                if real != mc:
+                    out["reader_bad"].append("column %s: codes array of the real reader %s, categorical reader model %s" % (
+                        name, str(real)[:80], str(mc)[:80]))
     return out
 
 
@@ -281,17 +313,17 @@ def check_dataset(path, df, spec, o, fm):
         except Exception as e:    # noqa
             res.setdefault("model_bad", []).append("harness: %s: %s" % (type(e).__name__, e))
         try:
-            cm = chunk_model_check(fm, data, r["leaves"], r["rgs"])
+            cm = chunk_model_check(fm, data, r["leaves"], r["rgs"], fn)
             acc = res.setdefault("chunk_model", {"chunks": 0, "bytes_equal": 0, "raw_equal": 0, "differ": [], "reader": 0,
-                                                 "reader_bad": [], "cat_chunks": 0})
-            for k in ("chunks", "bytes_equal", "raw_equal", "reader", "cat_chunks"):
-                acc[k] += cm[k]
+                                                 "reader_bad": [], "cat_chunks": 0, "cat_read": 0, "cat_real": 0})
+            for k in ("chunks", "bytes_equal", "raw_equal", "reader", "cat_chunks", "cat_read", "cat_real"):
+                acc[k] += cm.get(k, 0)
             acc["differ"].extend(cm["differ"][:2])
             acc["reader_bad"].extend(cm["reader_bad"][:2])
         except Exception as e:    # noqa
             import traceback
             res.setdefault("chunk_model", {"chunks": 0, "bytes_equal": 0, "raw_equal": 0, "differ": [], "reader": 0,
-                                           "reader_bad": [], "cat_chunks": 0})["differ"].append(
+                                           "reader_bad": [], "cat_chunks": 0, "cat_read": 0, "cat_real": 0})["differ"].append(
                 "harness: %s" % traceback.format_exc()[-400:])
         tv = _footer_tv(fm, data)
         pm = _pandas_meta(tv)
@@ -563,7 +595,7 @@ def run(ctx):
     files = lenient = 0
     decomp = {}
     wm = {"compared": 0, "differ": 0, "first": None}
-    cmw = {"chunks": 0, "bytes_equal": 0, "raw_equal": 0, "cat_chunks": 0, "reader": 0, "differ": 0, "first": None}
+    cmw = {"chunks": 0, "bytes_equal": 0, "raw_equal": 0, "cat_chunks": 0, "reader": 0, "differ": 0, "first": None, "cat_read": 0, "cat_real": 0}
     for (spec, o), res in zip(jobs, results):
         case = {"spec": spec, "opts": o}
         if "__crashed__" in res:
@@ -600,8 +632,8 @@ def run(ctx):
             wm["first"] = res["model_bad"][0]
         cm = res.get("chunk_model")
         if cm:
-            for k in ("chunks", "bytes_equal", "raw_equal", "cat_chunks", "reader"):
-                cmw[k] += cm[k]
+            for k in ("chunks", "bytes_equal", "raw_equal", "cat_chunks", "reader", "cat_read", "cat_real"):
+                cmw[k] += cm.get(k, 0)
             cmw["differ"] += len(cm["differ"])
             if cm["differ"] and not cmw["first"]:
                 cmw["first"] = cm["differ"][0]
@@ -625,6 +657,8 @@ def run(ctx):
     ctx.extra["writer_model_chunks_equal_before_compression_only"] = cmw["raw_equal"]
     ctx.extra["writer_model_chunks_not_equal"] = cmw["differ"]
     ctx.extra["reader_model_selfmade_chunks_read"] = cmw["reader"]
+    ctx.extra["reader_model_categorical_chunks_read_as_codes"] = cmw["cat_read"]
+    ctx.extra["reader_model_categorical_columns_compared_with_real_codes"] = cmw["cat_real"]
     if cmw["first"]:
         ctx.notes.append("writer chunk model (information only): first chunk whose bytes differ from Impl/WChunk: %s" % cmw["first"])
 
